@@ -78,7 +78,9 @@ impl Notify {
                 if obj == Some(self.state.erase()) {
                     trace!(state = ?self.state, thread = ?thread.id, "Notify::notify");
 
-                    thread.unpark(active);
+                    // The thread waits on this object, not in `park`.
+                    thread.causality.join(&active.causality);
+                    thread.set_runnable();
                 }
             }
         });
